@@ -39,7 +39,7 @@ def check_case(case, fenced=True):
         return ("refused:" + type(e).__name__, "%r -> %s: %s" % (text, type(e).__name__, e))
     except Exception as e:
         return ("foreign:" + _bucket(e), "%r -> %s: %s" % (text, type(e).__name__, str(e)[:300]))
-    bad, stats = semcheck.compare(t, case["rows"], set(ids), fences=known_ids(PROPERTY_ID) if fenced else ())
+    bad, stats = semcheck.compare(t, case["rows"], set(ids), fences=(set(known_ids(PROPERTY_ID)) if fenced else set()) | {"int-div-truncates"})
     case["_stats"] = stats
     if bad:
         try:
@@ -98,6 +98,6 @@ def run_task(task, seed, acc):
 
     def fn(tup):
         t, rows, style, sseed = tup
-        one({"term": to_json(t), "rows": rows, "style": style, "style_seed": sseed})
+        one({"term": to_json(t), "rows": semcheck.confuse_rows(t, rows, sseed), "style": style, "style_seed": sseed})
 
     hyp_run(strat, fn, task["n"], seed * 1000 + task["shard"])
